@@ -162,6 +162,20 @@ def handle (req : Json) : Except String Json := do
     let m ← nat (← field req "m")
     let p := pySqrtFrac n m
     return obj [("num", ofNat p.1), ("den", ofNat p.2), ("rto", ofNat (isqrtRto n m))]
+  if op == "stats" then
+    -- phase 5: the statistics themselves on one column (numbers `xs`; any non-missing values `vals` for `mode`)
+    let xs ← ratList (← field req "xs")
+    let vals ← (← arr (← field req "vals")).mapM valOfJson
+    let s := isort xs
+    return obj [("sorted", ofList ratToJson s), ("iqr", ofOpt ratToJson (iqr xs)), ("median", ofOpt ratToJson (median xs)),
+                ("p25", ofOpt ratToJson (percentile s (1 / 4))), ("p75", ofOpt ratToJson (percentile s (3 / 4))),
+                ("q1", ofOpt ratToJson (quarterAt s 1)), ("q3", ofOpt ratToJson (quarterAt s 3)),
+                ("prog25", ofOpt ratToJson (pctProg.run s (1 / 4))), ("prog75", ofOpt ratToJson (pctProg.run s (3 / 4))),
+                ("progiqr", ofOpt ratToJson (iqrProg.run xs)), ("progmean", ofOpt ratToJson (meanExpr.eval [] xs)),
+                ("progapply", ofOpt ratToJson (applyExpr.eval [("x", xs.headD 0), ("shift", (minL xs).getD 0), ("scale", 3)] [])),
+                ("min", ofOpt ratToJson (minL xs)), ("max", ofOpt ratToJson (maxL xs)), ("mean", ofOpt ratToJson (mean xs)),
+                ("mode", ofOpt valToJson (mode (vals.filter (fun v => !v.isMiss)))),
+                ("impmode", ofOpt valToJson (getImp .mode vals)), ("impmedian", ofOpt valToJson (getImp .median vals))]
   if op == "ragged" then
     -- `Scale.filter` on dense contexts that may be ragged
     let rows ← (← arr (← field req "rows")).mapM (fun r => do (← arr r).mapM valOfJson)
